@@ -150,6 +150,18 @@ POSITIVE_CONTROLS = [
 ]
 
 
+def _origins(why: str):
+    """the provenance labels of a fact-table escape (the `(data|codec|path from [...])` list of its description)"""
+    import re as _re
+    m = _re.search(r"from (\[.*\])\)\s*$", why)
+    if not m:
+        return []
+    try:
+        return sorted(ast.literal_eval(m.group(1)))
+    except Exception:
+        return [m.group(1)]
+
+
 def run(p: Program, rep: Report, tier: str) -> None:
     rep.explanation = (
         "Exception-escape analysis over the call graph from the client-facing entry points (request accessors on both "
@@ -202,9 +214,10 @@ def run(p: Program, rep: Report, tier: str) -> None:
             if any(short.endswith(k[1]) or k[1] in it.construct for k in INFEASIBLE if k[0] == it.exc):
                 rep.observe(f"suppressed (confirmed infeasible): {it.exc} at {it.construct}")
                 continue
-            d = by_construct.setdefault((it.exc, it.construct), {"item": it, "entries": []})
+            d = by_construct.setdefault((it.exc, it.construct), {"item": it, "entries": [], "origins": set()})
             if label not in d["entries"]:
                 d["entries"].append(label)
+            d["origins"].update(_origins(it.why))
     rep.call_sites = ea.call_sites
     for f in sorted(ea.functions):
         rep.analysed(f)
@@ -214,7 +227,7 @@ def run(p: Program, rep: Report, tier: str) -> None:
     for (exc, cons), d in sorted(by_construct.items()):
         it: Esc = d["item"]
         rep.violation("R12.1", f"{cons} -> {exc}", it.where,
-                      f"{exc} can escape to the caller: {it.why}", escapes_from=sorted(d["entries"]))
+                      f"{exc} can escape to the caller: {it.why}", escapes_from=sorted(d["entries"]), operation=it.op, exception=exc, origins=sorted(d["origins"]))
     # every (entry point) with no disallowed escape is one discharged obligation
     bad_entries = {e for d in by_construct.values() for e in d["entries"]}
     for fn, cls, ps in eps:
